@@ -384,6 +384,11 @@ impl SecondaryTransaction {
         if self.read_only {
             panic!("Txn is read-only but append is called");
         }
+        // Nothing to store (e.g. `INSERT ... SELECT` that selects no row). Don't create a
+        // RowSet for it: an empty RowSet can not be flushed.
+        if columns.cardinality() == 0 {
+            return Ok(());
+        }
         if self.mem.is_none() {
             let rowset_id = self.table.generate_rowset_id();
             let directory = self.table.get_rowset_path(rowset_id);
